@@ -139,6 +139,7 @@ def gen_plan(rng, idx):
             while last['s'].endswith('\n'):
                 last['s'] = last['s'][:-1]
     plan = {'entry': entry, 'ml': ml, 'lang': lang, 'frags': frags, 'nosp': nosp,
+            'stdin': entry == 'cli' and rng.random() < 0.4,
             'ltfiles': ltfiles, 'nested': nested, '_index': idx,
             'pack': rng.choice(['*', '*', '', 'amsmath,babel'])}
     return plan
@@ -161,10 +162,15 @@ def concrete(plan, faulty):
             'latex': tex, 'ml': plan['ml'], 'opts': o}]}
     files['main.tex'] = {'text': tex}
     if entry == 'cli':
-        return {'kind': 'filter_cli', 'files': files,
-                'argv': (['--nosp'] if plan.get('nosp') else [])
-                + ['--char', '--nums', 'nums.txt', '--lang', plan['lang'],
-                   '--pack', plan['pack'], 'main.tex']}
+        cp = {'kind': 'filter_cli', 'files': files,
+              'argv': (['--nosp'] if plan.get('nosp') else [])
+              + ['--char', '--nums', 'nums.txt', '--lang', plan['lang'],
+                 '--pack', plan['pack']]}
+        if plan.get('stdin'):
+            cp['stdin'] = tex           # python -m yalafi < main.tex
+        else:
+            cp['argv'].append('main.tex')
+        return cp
     argv = (['--no-specials'] if plan.get('nosp') else []) + [
         '--lt-command', 'simlt', '--language', plan['lang'], '--output',
         'json', 'main.tex']
@@ -355,6 +361,8 @@ def evaluate(plan):
     if len(diags_bad) > nmarks:
         probes['more_diagnostics_than_marks'] = 1
     probes['entry_' + plan['entry']] = 1
+    if plan.get('stdin'):
+        probes['cli_text_from_stdin'] = 1
     consumed = sum(v for k, v in fired.items())
     nt = digest if consumed else None
     return core.ok(digest, probes=probes, nontrivial=nt, **kw)
@@ -418,9 +426,14 @@ def shrink(plan):
             c = copy.deepcopy(plan)
             del c['frags'][i]
             yield _prune(c)
+    if plan.get('stdin'):
+        c = copy.deepcopy(plan)
+        c['stdin'] = False
+        yield c
     if plan['entry'] != 'lib':
         c = copy.deepcopy(plan)
         c['entry'] = 'lib'
+        c['stdin'] = False
         yield c
     if plan['ml']:
         c = copy.deepcopy(plan)
